@@ -94,14 +94,45 @@ func c14Run(w *W) {
 		b.accepted = append(b.accepted, p)
 		p.OnClose = func() {}
 	}
-	d, err := b.s.NewDialer(b.daddr, map[string]interface{}{
-		mangos.OptionReconnectTime:    r,
-		mangos.OptionMaxReconnectTime: M,
-		mangos.OptionDialAsynch:       async,
-	})
+	// where the reconnect options are given: to NewDialer, to the socket
+	// beforehand (a new dialer inherits them), or to the dialer after its
+	// construction
+	where := w.Choose(simrt.SShape, 3)
+	w.SetShape("options_given_to", []string{"NewDialer", "socket-before", "dialer-after"}[where])
+	dopts := map[string]interface{}{mangos.OptionDialAsynch: async}
+	switch where {
+	case 0:
+		dopts[mangos.OptionReconnectTime] = r
+		dopts[mangos.OptionMaxReconnectTime] = M
+	case 1:
+		// (the maximum first: a socket refuses nothing here, but the order a
+		// careful application would use)
+		if e1, e2 := b.s.SetOption(mangos.OptionMaxReconnectTime, M), b.s.SetOption(mangos.OptionReconnectTime, r); e1 != nil || e2 != nil {
+			w.Failf("C19/option-refused", "%s socket SetOption(MaxReconnectTime %v) = %v, SetOption(ReconnectTime %v) = %v", kind, M, e1, r, e2)
+			return
+		}
+		w.Probe("reconnect-options-inherited-from-socket")
+	}
+	d, err := b.s.NewDialer(b.daddr, dopts)
 	if err != nil {
 		w.Failf("HARNESS/newdialer", "%v", err)
 		return
+	}
+	if where == 2 {
+		if e1, e2 := d.SetOption(mangos.OptionMaxReconnectTime, M), d.SetOption(mangos.OptionReconnectTime, r); e1 != nil || e2 != nil {
+			w.Failf("C19/option-refused", "%s dialer SetOption(MaxReconnectTime %v) = %v, SetOption(ReconnectTime %v) = %v", kind, M, e1, r, e2)
+			return
+		}
+		w.Probe("reconnect-options-set-on-dialer-after-construction")
+	}
+	for _, o := range []struct {
+		n string
+		v time.Duration
+	}{{mangos.OptionReconnectTime, r}, {mangos.OptionMaxReconnectTime, M}} {
+		if got, err := d.GetOption(o.n); err != nil || got != o.v {
+			w.Failf("C19/get-differs", "%s dialer (options given to %s): GetOption(%s) = (%v, %v), want %v", kind, []string{"NewDialer", "socket-before", "dialer-after"}[where], o.n, got, err, o.v)
+			return
+		}
 	}
 	b.d = d
 	maxGap := M
